@@ -369,6 +369,15 @@ theorem counterStep_auto (w E v lv : Nat) (chk : Bool) (hw : 0 < w) (h1 : 1 ≤ 
         · simp [hM2, hz]
       · simp [hM2]
 
+/-- free-running counter with a load request -/
+theorem counterStep_auto_load (w E v lv : Nat) (chk load : Bool) (hw : 0 < w) (h1 : 1 ≤ E) (h2 : E ≤ 2 ^ w)
+    (hchk : chk = false → E = 2 ^ w) (hv : v < E) :
+    (counterStep ⟨w, chk, true⟩ v ⟨false, false, load, lv, E - 1⟩).next = wrapStep E v true false load lv := by
+  cases load
+  · have := counterStep_auto w E v lv chk hw h1 h2 hchk hv
+    simpa [wrapStep] using this
+  · simp [counterStep, wrapStep]
+
 theorem wrapStep_lt (E v lv : Nat) (inc dec load : Bool) (h1 : 1 ≤ E) (hv : v < E) (hl : load = true → lv < E) :
     wrapStep E v inc dec load lv < E := by
   unfold wrapStep
@@ -403,6 +412,38 @@ theorem counterRun_unchecked (w : Nat) (hw : 0 < w) (em1 : Nat) (ops : List Coun
     rw [counterStep_unchecked w v o.lv em1 o.inc o.dec o.load hw hv]
     exact ih _ (wrapStep_lt (2 ^ w) v o.lv o.inc o.dec o.load (Nat.two_pow_pos w) hv (hl o (by simp)))
       (fun o' ho' => hl o' (by simp [ho']))
+
+/-- one cycle of any `Counter` instance, by usage pattern: the circuit step is the API definition -/
+theorem counterApi_step (w E rv v : Nat) (chk : Bool) (u : CounterUse) (resetLast : Bool) (c : CounterCalls)
+    (hw : 0 < w) (h1 : 1 ≤ E) (h2 : E ≤ 2 ^ w) (hchk : chk = false → E = 2 ^ w) (hv : v < E) :
+    (counterStep ⟨w, chk, u.autoInc⟩ v (callsToIn u resetLast rv (E - 1) c)).next = apiStep E rv u resetLast v c := by
+  unfold callsToIn apiStep CounterUse.autoInc
+  cases hi : u.inc <;> cases hd : u.dec <;> simp only [Bool.false_and, Bool.true_and, Bool.or_false, Bool.or_true, Bool.not_false,
+    Bool.not_true, Bool.and_self, Bool.and_false, Bool.false_or, Bool.or_self]
+  · exact counterStep_auto_load w E v _ chk _ hw h1 h2 hchk hv
+  all_goals
+    cases chk
+    · rw [hchk rfl]; exact counterStep_unchecked w v _ _ _ _ _ hw (by rw [← hchk rfl]; exact hv)
+    · exact counterStep_checked w E v _ _ _ _ hw h1 h2 hv
+
+theorem apiStep_lt (E rv v : Nat) (u : CounterUse) (resetLast : Bool) (c : CounterCalls) (h1 : 1 ≤ E) (hv : v < E) (hrv : rv < E)
+    (hlv : c.lv < E) : apiStep E rv u resetLast v c < E := by
+  unfold apiStep
+  apply wrapStep_lt E v _ _ _ _ h1 hv
+  intro _
+  (repeat' split) <;> assumption
+
+theorem counterApiRun_eq (w E rv : Nat) (chk : Bool) (u : CounterUse) (resetLast : Bool)
+    (hw : 0 < w) (h1 : 1 ≤ E) (h2 : E ≤ 2 ^ w) (hchk : chk = false → E = 2 ^ w) (hrv : rv < E)
+    (hist : List CounterCalls) (v : Nat) (hv : v < E) (hl : ∀ c ∈ hist, c.lv < E) :
+    counterApiRun w chk u resetLast rv (E - 1) v hist = apiRun E rv u resetLast v hist ∧ apiRun E rv u resetLast v hist < E := by
+  induction hist generalizing v with
+  | nil => exact ⟨rfl, hv⟩
+  | cons c t ih =>
+    unfold counterApiRun apiRun
+    simp only [List.foldl_cons]
+    rw [counterApi_step w E rv v chk u resetLast c hw h1 h2 hchk hv]
+    exact ih _ (apiStep_lt E rv v u resetLast c h1 hv hrv (hl c (by simp))) (fun c' hc' => hl c' (by simp [hc']))
 
 /-- number of cycles with a net increment / decrement -/
 def ups (ops : List CounterOp) : Nat := (ops.filter fun o => o.inc && !o.dec).length
